@@ -17,12 +17,12 @@ def run(rep, tier, seed):
     configs = [
         dict(name="hist_real_complex_alternating", module="MC_CTracer", maxinstr=2, maxhist=3, ops="OpsCore", points="PtsMix", seeds="SeedsB", max_replay=mr or 30000),
         dict(name="hist_two_independents", maxinstr=2, maxhist=3, ops="OpsTwo", points="PtsTwo", seeds="SeedsB", prefix="two", NI=2, max_replay=mr or 30000),
-        dict(name="hist3", maxinstr=3, maxhist=3, ops="OpsHist", points="PtsP1small", seeds="SeedsA", max_replay=mr or 30000),
+        dict(name="hist3", maxinstr=2 if q else 3, maxhist=3, ops="OpsHist", points="PtsP1small", seeds="SeedsA", max_replay=mr or 30000),
         dict(name="hist_drv", maxinstr=2, maxhist=3, ops="OpsDrvO", points="PtsOne", seeds="SeedsB", max_replay=mr or 30000),
         dict(name="hist_drv_two_points", maxinstr=1, maxhist=3, ops="OpsDrvX", points="NoPts", seeds="NoSeeds", drvx="XCat", max_replay=40000),   # (all of them: a driver that remembers its last point shows in 10 of 28512 histories)
         dict(name="other_while_recording", maxinstr=3, maxhist=2, ops="OpsOtherRec", points="PtsP1small", seeds="SeedsB", max_replay=mr or 30000),
         dict(name="hist_seta", maxinstr=2, maxhist=3, ops="OpsH3", points="PtsP1small", seeds="SeedsB", max_replay=mr or 30000),
-        dict(name="hist_div", maxinstr=3, maxhist=3, ops="OpsH2", points="PtsD2b", seeds="SeedsB", max_replay=mr or 30000),
+        dict(name="hist_div", maxinstr=2 if q else 3, maxhist=3, ops="OpsH2", points="PtsD2b", seeds="SeedsB", max_replay=mr or 30000),
     ]
     if not q:
         configs += [
